@@ -103,6 +103,10 @@ func (verifCodec) Encode(data [][]byte) ([][]byte, error) {
 	out := make([][]byte, len(data))
 	for i := range out {
 		out[i] = make([]byte, len(data[i]))
+		// parity bytes are arbitrary; the first 29 are fixed to the parity
+		// namespace pattern so that a response share built by the harness
+		// (namespace by choice + 8 symbolic bytes) can equal a parity cell
+		copy(out[i], libshare.ParitySharesNamespace.Bytes())
 		copy(out[i][libshare.NamespaceSize:], nd.Bytes(8, "parity"))
 	}
 	for _, r := range verifCodecRecs {
@@ -118,8 +122,56 @@ func (verifCodec) Encode(data [][]byte) ([][]byte, error) {
 	return out, nil
 }
 
-func (verifCodec) Decode(data [][]byte) ([][]byte, error) {
-	return nil, errors.New("model codec: Decode not modelled")
+// Decode reconstructs all 2k chunks from one present half (the other half is
+// empty): the ideal codec is a bijection between originals and parity.
+func (c verifCodec) Decode(data [][]byte) ([][]byte, error) {
+	k := len(data) / 2
+	if k == 0 || len(data)%2 != 0 {
+		return nil, errors.New("model codec: bad chunk count")
+	}
+	leftPresent, rightPresent := true, true
+	for i := 0; i < k; i++ {
+		if len(data[i]) == 0 {
+			leftPresent = false
+		}
+		if len(data[k+i]) == 0 {
+			rightPresent = false
+		}
+	}
+	if leftPresent {
+		par, err := c.Encode(data[:k])
+		if err != nil {
+			return nil, err
+		}
+		return append(append([][]byte{}, data[:k]...), par...), nil
+	}
+	if !rightPresent {
+		return nil, errors.New("model codec: too few chunks to decode")
+	}
+	y := data[k:]
+	for _, r := range verifCodecRecs {
+		if verifSameChunks(r.out, y) {
+			return append(append([][]byte{}, r.in...), y...), nil
+		}
+	}
+	x := make([][]byte, k)
+	for i := range x {
+		x[i] = make([]byte, len(y[i]))
+		copy(x[i][libshare.NamespaceSize:], nd.Bytes(8, "decoded"))
+		// the namespace of a decoded original is whatever the codec yields
+		copy(x[i], nd.Bytes(libshare.NamespaceSize, "decodedNs"))
+	}
+	for _, r := range verifCodecRecs {
+		if len(r.in) == k {
+			nd.Axiom(nd.Iff(verifEqChunks(r.out, y), verifEqChunks(r.in, x)))
+		}
+	}
+	yc := make([][]byte, k)
+	for i := range y {
+		yc[i] = append([]byte(nil), y[i]...)
+	}
+	verifCodecRecs = append(verifCodecRecs, verifCodecRec{in: x, out: yc})
+	return append(append([][]byte{}, x...), y...), nil
 }
 func (verifCodec) MaxChunks() int                 { return 1 << 16 }
 func (verifCodec) Name() string                   { return "verif-ideal" }
